@@ -1,10 +1,16 @@
 CHECK = {
     "level": "exploration",
-    "assumptions": ["root namespace only; bound CIDRs are not generated",
-                    "mount maximum TTL of the token and credential mounts is tuned to 4h; system maximum is the default 32 days"],
+    "assumptions": ["bound CIDRs are not generated",
+                    "mount maximum TTL of the token and credential mounts is tuned to 4h (root namespace); system maximum is the default 32 days",
+                    "create-namespaces: namespaces root, n1/ and n1/n2/; the parent's update/sudo capability on the namespace-qualified "
+                    "create path is computed by a table model from the policies as defined in the parent's namespace (the model may "
+                    "over-estimate, e.g. it grants sudo below its namespace to a namespace-root token, never under-estimate)"],
     "units": [
-        unit("create", "vault", ["vault/c07_test.go"], "^TestVerif_C07_",
+        unit("create", "vault", ["vault/c07_test.go"], "^TestVerif_C07_(TokenCreate|Login)$",
              quick={"checks": 2500, "shards": 1, "cap": 900},
              thorough={"checks": 10000, "shards": 16, "cap": 3000}),
+        unit("create-namespaces", "vault", ["vault/c07ns_test.go", "vault/c07_test.go"], "^TestVerif_C07_CreateNamespaces$",
+             quick={"checks": 4000, "shards": 1, "cap": 900},
+             thorough={"checks": 20000, "shards": 16, "cap": 3000}),
     ],
 }
